@@ -367,9 +367,92 @@ def build(length, hist):
     return w
 
 
+def part_filelike(acc):
+    """Views obtained from MachineController.sdram_alloc_as_filelike on the
+    simulated machine: length, base, truncation at the requested size,
+    confinement in machine memory, free."""
+    from mc.ctl import Session
+    from mc.sim import SimMachine
+    from mc.runner import REPO
+    from rig.machine_control.machine_controller import TruncationWarning
+    for size in (0, 1, 2, 3, 4, 5, 10, 13, 16):
+        for chip in ((0, 0), (1, 1)):
+            for clear in (False, True):
+                acc.evaluations += 1
+                acc.transitions += 1
+                acc.nontrivial += 1
+                sim = SimMachine(REPO, 2, 2, buffer_size=8)
+                sim.full_sync = False
+                case = dict(filelike=True, size=size, chip=list(chip),
+                            clear=clear)
+
+                def bad(kind, msg):
+                    acc.violation(dict(kind=kind), case, msg)
+                with Session(sim) as s_:
+                    mc = s_.mc
+                    c = sim.chips[chip]
+                    try:
+                        with warnings.catch_warnings(record=True) as wl:
+                            warnings.simplefilter("always")
+                            f = mc.sdram_alloc_as_filelike(
+                                size, 0, chip[0], chip[1], 30, clear)
+                            ptr = max(c.allocs) if c.allocs else None
+                            if ptr is None or c.allocs[ptr][0] != size or \
+                                    c.allocs[ptr][1] != 30:
+                                bad("filelike_alloc", "allocation table %r "
+                                    "after asking for %d bytes" % (c.allocs,
+                                                                   size))
+                                continue
+                            if len(f) != size or f.address != ptr or \
+                                    f.tell() != 0:
+                                bad("filelike_bounds", "view of a %d byte "
+                                    "block at %#x has len %d address %#x"
+                                    % (size, ptr, len(f), f.address))
+                                continue
+                            before = c.mem.read(ptr - 8, size + 24)
+                            data = bytes((0xC0 + i) & 0xff
+                                         for i in range(size + 7))
+                            n = f.write(data)
+                            after = c.mem.read(ptr - 8, size + 24)
+                            want = before[:8] + data[:size] + \
+                                before[8 + size:]
+                            if n != size or after != want:
+                                bad("filelike_write", "writing %d bytes to a "
+                                    "%d byte block wrote %r; memory around "
+                                    "the block changed beyond it: %s"
+                                    % (len(data), size, n, after != want))
+                                continue
+                            f.seek(0)
+                            got = f.read(size + 3)
+                            if got != data[:size]:
+                                bad("filelike_read", "read back %r" % got)
+                                continue
+                            g = f[1:3]
+                            f.free()
+                            if ptr in c.allocs:
+                                bad("filelike_free", "free() did not free "
+                                    "the block")
+                            for fn in (lambda: f.read(1), lambda: g.read(1),
+                                       lambda: g.tell(), lambda: f.free()):
+                                try:
+                                    fn()
+                                    bad("filelike_after_free", "operation "
+                                        "succeeded after free()")
+                                    break
+                                except OSError:
+                                    pass
+                    except Exception as e:
+                        bad("filelike_exception", "%s: %s"
+                            % (type(e).__name__, e))
+                    if sim.errors:
+                        bad("filelike_protocol", sim.errors[0])
+    acc.states += 1
+    acc.sample(dict(filelike=True, sizes=[0, 1, 2, 3, 4, 5, 10, 13, 16]))
+
+
 def shards(tier):
     ops = alphabet(tier)
-    out = []
+    out = [dict(filelike=True)]
     for length in scope(tier)["lengths"]:
         for i in range(0, len(ops), 6):
             out.append(dict(length=length, first=[i, min(i + 6, len(ops))]))
@@ -377,6 +460,9 @@ def shards(tier):
 
 
 def run_shard(params, tier, acc):
+    if params.get("filelike"):
+        part_filelike(acc)
+        return
     ops = alphabet(tier)
     depth = scope(tier)["depth"]
     length = params["length"]
@@ -422,6 +508,9 @@ def run_shard(params, tier, acc):
 
 
 def replay(case, acc):
+    if case.get("filelike"):
+        part_filelike(acc)
+        return
     hist = [(a, tuple(b)) for a, b in case["hist"]]
     w = build(case["length"], hist[:-1])
     problems = []
